@@ -143,6 +143,34 @@ pub fn run_c07(rep: &mut Report, thorough: bool) {
     };
     bfs::bfs(&s.cfg, &events, &s.cookies, &o, rep);
     rep.sink.sample(serde_json::json!({"alphabet": events.iter().map(|e| e.name.clone()).collect::<Vec<_>>()}));
+    // edge cookies: flows whose cookie is 0xffffffff (valid ack = 0, the "underflow" arm), 0,
+    // 0xfffffffe and 1.  The keys were found offline with the harness's own SipHash
+    // (`mcx find-edge-cookies`); they are CONFIRMED against the real SYN-ACK here, and the stage
+    // is reported as skipped if the real cookie function no longer agrees.
+    {
+        let edge: [([u64; 2], u32); 4] = [([0xdcdce3a2, 0x5eed], 0xffff_ffff), ([0x45a0fb78, 0x5eed], 0), ([0x45a99a18, 0x5eed], 0xffff_fffe), ([0x32b774b09, 0x5eed], 1)];
+        let mut confirmed = 0;
+        for (key, want) in edge {
+            let cfg = Cfg::base().with_key(key);
+            let f = flow4(40000, 80);
+            let g = flow4(40001, 80);
+            let ck = learn_cookies(&cfg, &[f.clone(), g.clone()]).unwrap_or_default();
+            if ck.get(&key_of(&f)) != Some(&want) {
+                continue;
+            }
+            confirmed += 1;
+            let mut events: Vec<Event> = tcp_events("E", &f, want, false);
+            if let Some(cg) = ck.get(&key_of(&g)) {
+                events.extend(tcp_events("G", &g, *cg, false).into_iter().filter(|e| e.name.contains("data-http-ack=") || e.name.ends_with(":syn")));
+            }
+            let o = BfsOpts { stage: format!("bfs-edge-cookie-{:#x}", want), max_depth: if thorough { 4 } else { 3 }, max_states: 20000, abstract_acc: true, differential: false };
+            bfs::bfs(&cfg, &events, &ck, &o, rep);
+        }
+        rep.sink.count("edge_cookie_flows_confirmed", confirmed);
+        if confirmed < 4 {
+            rep.extra.insert("edge_cookie_stage".into(), serde_json::json!(format!("{} of 4 edge-cookie flows confirmed against the real SYN-ACK; the others were skipped (cookie function differs from the harness's SipHash guess)", confirmed)));
+        }
+    }
     // wide arithmetic sweep on a validated flow: seq x payload length, ack low half
     let f = s.flows[0].1.clone();
     let c = s.cookies[&key_of(&f)];
@@ -242,6 +270,7 @@ pub fn run_c08(rep: &mut Report, thorough: bool) {
     rep.sink.sample(serde_json::json!({"alphabet": events.iter().map(|e| e.name.clone()).collect::<Vec<_>>()}));
     // (ii) no-dedup interleavings: two flows, each a 3-segment request, 0..2 noise frames
     interleavings(&s, rep, thorough);
+    structured_pairs(&s.cfg, rep);
     // (iv) collision stage
     if thorough {
         let t0 = std::time::Instant::now();
@@ -263,6 +292,70 @@ pub fn run_c08(rep: &mut Report, thorough: bool) {
             }
         }
     }
+}
+
+/// Pairs of distinct flows that a weakened cookie function would typically confuse: swapped
+/// ports, equal port sums, ports differing in one byte, same ports from another client / to
+/// another server address, swapped addresses.  Any pair with equal learned cookies goes through
+/// the interference scenario (its key names the pair, so it is never covered by a listed one).
+pub fn structured_pairs(cfg: &Cfg, rep: &mut Report) {
+    let t0 = std::time::Instant::now();
+    let base = flow4(40000, 80);
+    let mut pairs: Vec<(Flow, Flow)> = Vec::new();
+    let with = |cp: u16, sp: u16| flow4(cp, sp);
+    pairs.push((with(40000, 80), with(80, 40000)));
+    pairs.push((with(39999, 81), with(40000, 80)));
+    pairs.push((with(40000, 80), with(40001, 79)));
+    pairs.push((with(0x9c40, 80), with(0x1c40, 80)));
+    pairs.push((with(0x9c40, 80), with(0x9c41, 80)));
+    pairs.push((with(40000, 80), with(40000, 0x5000)));
+    pairs.push((with(40000, 80), with(40000, 81)));
+    pairs.push((with(0, 0), with(0, 65535)));
+    let mut b2 = base.clone();
+    b2.cip = cli4b();
+    pairs.push((base.clone(), b2));
+    let mut b3 = base.clone();
+    b3.sip = srv4b();
+    pairs.push((base.clone(), b3));
+    let mut b4 = base.clone();
+    b4.cip = srv4();
+    b4.sip = cli4();
+    pairs.push((base.clone(), b4));
+    let mut b5 = base.clone();
+    b5.cip = Ip::V4([10, 0, 0, 10]);
+    pairs.push((base.clone(), b5));
+    let mut b6 = base.clone();
+    b6.cip = Ip::V4([9, 0, 0, 10]);
+    b6.sip = Ip::V4([11, 0, 0, 0]);
+    pairs.push((base.clone(), b6));
+    pairs.push((flow6(40000, 80), flow6(80, 40000)));
+    pairs.push((flow6(39999, 81), flow6(40000, 80)));
+    let mut c6 = flow6(40000, 80);
+    c6.cip = cli6b();
+    pairs.push((flow6(40000, 80), c6));
+    let mut d6 = flow6(40000, 80);
+    d6.sip = srv6b();
+    pairs.push((flow6(40000, 80), d6));
+    let all: Vec<Flow> = pairs.iter().flat_map(|(a, b)| [a.clone(), b.clone()]).collect();
+    let ck = match learn_cookies(cfg, &all) {
+        Ok(c) => c,
+        Err(e) => {
+            rep.sink.machinery_errors.push(e);
+            return;
+        }
+    };
+    let mut equal = 0;
+    for (a, b) in &pairs {
+        if let (Some(x), Some(y)) = (ck.get(&key_of(a)), ck.get(&key_of(b))) {
+            if x == y {
+                equal += 1;
+                alias_scenario(cfg, a, b, *x, rep);
+            }
+        }
+    }
+    rep.sink.count("structured_pairs", pairs.len() as u64);
+    rep.sink.count("structured_pairs_with_equal_cookies", equal);
+    rep.stage("structured-pairs", "17 pairs of flows related by port swap / equal port sum / one-byte port difference / other client / other server address / swapped addresses: equal cookies => interference scenario", pairs.len() as u64, t0);
 }
 
 fn alias_scenario(cfg: &Cfg, a: &Flow, b: &Flow, c: u32, rep: &mut Report) {
@@ -288,7 +381,7 @@ fn alias_scenario(cfg: &Cfg, a: &Flow, b: &Flow, c: u32, rep: &mut Report) {
             if with != alone {
                 s.violation(Violation {
                     prop: "C08".into(),
-                    key: "cookie-alias".into(),
+                    key: crate::model::alias_key(&key_of(&a2), &key_of(&b2)),
                     what: format!("flows {}:{}->{} and {}:{}->{} share cookie {:#x}: a partial request on the first changes the reply to the second", a2.cip, a2.cport, a2.sport, b2.cip, b2.cport, b2.sport, c),
                     cfg: cfg2.clone(),
                     cmds: it.cmds[..3].to_vec(),
@@ -299,7 +392,7 @@ fn alias_scenario(cfg: &Cfg, a: &Flow, b: &Flow, c: u32, rep: &mut Report) {
             if it.outs[2].n == 1 {
                 s.violation(Violation {
                     prop: "C09".into(),
-                    key: "cookie-alias".into(),
+                    key: crate::model::alias_key(&key_of(&a2), &key_of(&b2)),
                     what: format!("two validated flows with equal cookie {:#x} share one connection-table entry", c),
                     cfg: cfg2.clone(),
                     cmds: it.cmds[..3].to_vec(),
@@ -401,6 +494,17 @@ pub fn run_c09(rep: &mut Report, thorough: bool) {
         differential: false,
     };
     bfs::bfs(&s.cfg, &events, &s.cookies, &o, rep);
+    structured_pairs(&s.cfg, rep);
+    {
+        // the listed witness pair of D13 under the production key
+        let a = flow4(59661, 80);
+        let b = flow4(15151, 443);
+        if let Ok(ck) = learn_cookies(&s.cfg, &[a.clone(), b.clone()]) {
+            if ck.get(&key_of(&a)).is_some() && ck.get(&key_of(&a)) == ck.get(&key_of(&b)) {
+                alias_scenario(&s.cfg, &a, &b, ck[&key_of(&a)], rep);
+            }
+        }
+    }
     // volume: one long-lived driver per worker, no reset: the table must stay empty
     let t0 = std::time::Instant::now();
     let kinds: u64 = 12;
